@@ -9,6 +9,10 @@
 import DuckModel.Lemmas.ScriptRunLemmas
 import DuckModel.Lemmas.ScriptLoopConcat
 import DuckModel.Lemmas.ScriptLoopSetFromArray
+import DuckModel.Lemmas.ScriptLoopMapContainsValueFinal
+import DuckModel.Lemmas.ScriptLoopArrayConcatFinal
+import DuckModel.Lemmas.ScriptLoopArrayContainsCall
+import DuckModel.Lemmas.ScriptLoopArrayJoinFinal
 
 namespace Duck
 open Duck.Alias Duck.Coll Duck.ScriptRun Duck.Spec
@@ -132,6 +136,120 @@ theorem C19_script_set_from_array_frame (args : List Str) (vars : Vars) (st : Sc
     cases tget st.coll.tbl a with
     | none => exact this
     | some v => cases v <;> exact this
+
+/-- `map_contains_value`: besides its own prefix the run clears the prefix of the script command
+    it calls inside its condition (`scope::map_is_empty::`, the nested wrapper's `clear` works on
+    the same variable map) - so the caller must be clean under BOTH prefixes for an exact frame;
+    in general the variables afterwards are the caller's minus both prefixes
+    (`C12_script_map_contains_value_correct`, `LoopFrame.vars`). -/
+theorem C19_script_map_contains_value_frame (args : List Str) (vars : Vars) (st : ScriptSt)
+    (hclean : ∀ k, underPrefix "scope::map_contains_value".toList k = true → Vars.get vars k = none)
+    (hclean' : ∀ k, underPrefix "scope::map_is_empty".toList k = true → Vars.get vars k = none)
+    (hfree : tget st.coll.tbl (Coll.handleName st.coll.next) = none)
+    (hfree1 : tget st.coll.tbl (Coll.handleName (st.coll.next + 1)) = none)
+    (hfree2 : tget st.coll.tbl (Coll.handleName (st.coll.next + 2)) = none)
+    (hok : ∀ a, args.head? = some a → ArgOK a = true)
+    (hstale : NoStaleFor "scope::map_contains_value".toList st.forStack)
+    (hc4 : IfCacheOK st.ifMeta "scope::map_contains_value::4".toList 16)
+    (hc12 : IfCacheOK st.ifMeta "scope::map_contains_value::12".toList 14)
+    (hc8 : CacheOK st.forMeta "scope::map_contains_value::8".toList 15)
+    (hempty : tget st.coll.tbl [] = none)
+    (hfuel : ∀ a, args.head? = some a → 6 * mapLen st.coll.tbl a + 16 ≤ scriptFuel) :
+    (runScriptCmd "map_contains_value".toList args vars st).2.1 = vars := by
+  have hkeys := mcv_keys
+  match args with
+  | [] => unfold runScriptCmd; rw [mcv_entry, aliasRun_few _ _ _ _ _ _ _ (by decide)]
+  | [_] => unfold runScriptCmd; rw [mcv_entry, aliasRun_few _ _ _ _ _ _ _ (by simp)]
+  | a :: v :: rest =>
+    have hfu := hfuel a rfl
+    obtain ⟨k, hk⟩ : ∃ k, scriptFuel = k + 6 * mapLen st.coll.tbl a + 16 :=
+      ⟨scriptFuel - (6 * mapLen st.coll.tbl a + 16), by omega⟩
+    obtain ⟨r, hrun, hpost⟩ := mcv_call 4 a v rest vars st hfree hfree1 hfree2 (hok a rfl) hstale
+      (by rw [hkeys.1]; exact hc4) (by rw [hkeys.2.1]; exact hc12) (by rw [hkeys.2.2]; exact hc8)
+      (by rw [show Vars.get vars mKH = none from hclean mKH (by decide)]; exact hempty)
+    unfold runScriptCmd
+    rw [hk, show scriptDepth = 4 + 2 from rfl, hrun k, hpost.frame.vars,
+      clear_of_callerClean mieScope vars hclean', clear_of_callerClean mScope vars hclean]
+
+/-- `array_concat` on live arrays: every variable the three loops write is under the prefix -/
+theorem C19_script_array_concat_frame (a : Str) (rest : List Str) (vars : Vars) (st : ScriptSt)
+    (hclean : ∀ k, underPrefix "scope::array_concat".toList k = true → Vars.get vars k = none)
+    (hfree : tget st.coll.tbl (Coll.handleName st.coll.next) = none)
+    (hfree1 : tget st.coll.tbl (Coll.handleName (st.coll.next + 1)) = none)
+    (hlive : ∀ x ∈ a :: rest, ∃ l, tget st.coll.tbl x = some (.list l))
+    (hok : ∀ x ∈ a :: rest, ArgOK x = true)
+    (hstale : NoStaleFor "scope::array_concat".toList st.forStack)
+    (hc1 : CacheOK st.forMeta "scope::array_concat::1".toList 5)
+    (hc2 : IfCacheOK st.ifMeta "scope::array_concat::2".toList 4)
+    (hc9 : CacheOK st.forMeta "scope::array_concat::9".toList 13)
+    (hc10 : CacheOK st.forMeta "scope::array_concat::10".toList 12)
+    (hfuel : 6 * (a :: rest).length + 3 * (acCells st.coll.tbl (a :: rest)).length + 9 ≤ scriptFuel) :
+    (runScriptCmd "array_concat".toList (a :: rest) vars st).2.1 = vars := by
+  have hkeys := ac_keys
+  have hcost := acCost_eq st.coll.tbl (a :: rest)
+  obtain ⟨k, hk⟩ : ∃ k, scriptFuel = k + 3 * (a :: rest).length + acCost st.coll.tbl (a :: rest) + 9 :=
+    ⟨scriptFuel - (3 * (a :: rest).length + acCost st.coll.tbl (a :: rest) + 9), by omega⟩
+  obtain ⟨r, hrun, hpost⟩ := ac_call 4 a rest vars st hfree hfree1 (fun x hx => ⟨hok x hx, hlive x hx⟩) hstale
+    (by rw [hkeys.1]; exact hc1) (by rw [hkeys.2.1]; exact hc2) (by rw [hkeys.2.2.1]; exact hc9)
+    (by rw [hkeys.2.2.2]; exact hc10)
+  unfold runScriptCmd
+  rw [hk, show scriptDepth = 4 + 2 from rfl, hrun k, hpost.frame.vars]
+  exact clear_of_callerClean aScope vars hclean
+
+/-- `array_contains`: every variable the body writes or unsets is under the prefix -/
+theorem C19_script_array_contains_frame (args : List Str) (vars : Vars) (st : ScriptSt)
+    (hclean : ∀ k, underPrefix "scope::array_contains".toList k = true → Vars.get vars k = none)
+    (hfree : tget st.coll.tbl (Coll.handleName st.coll.next) = none)
+    (hne : args.head? ≠ some (Coll.handleName st.coll.next))
+    (hstale : NoStaleFor "scope::array_contains".toList st.forStack)
+    (hc5 : CacheOK st.forMeta "scope::array_contains::5".toList 14)
+    (hc8 : IfCacheOK st.ifMeta "scope::array_contains::8".toList 11)
+    (hE : ∀ l, tget st.coll.tbl [] ≠ some (.list l))
+    (hfuel : ∀ a, args.head? = some a → 7 * arrLen st.coll.tbl a + 12 ≤ scriptFuel) :
+    (runScriptCmd "array_contains".toList args vars st).2.1 = vars := by
+  match args with
+  | [] => unfold runScriptCmd; rw [kc_entry, aliasRun_few _ _ _ _ _ _ _ (by decide)]
+  | [_] => unfold runScriptCmd; rw [kc_entry, aliasRun_few _ _ _ _ _ _ _ (by simp)]
+  | a :: v :: rest =>
+    have hfu := hfuel a rfl
+    obtain ⟨k, hk⟩ : ∃ k, scriptFuel = k + 7 * arrLen st.coll.tbl a + 12 :=
+      ⟨scriptFuel - (7 * arrLen st.coll.tbl a + 12), by omega⟩
+    have hlen : arrLen st.coll.tbl a < Calc.two53 := by
+      have : scriptFuel = 100000 := rfl
+      unfold Calc.two53; omega
+    obtain ⟨r, hrun, hpost⟩ := kc_call 5 a v rest vars st hfree (fun e => hne (by simp [e])) hstale
+      (by rw [kc_keys.1]; exact hc5) (by rw [kc_keys.2]; exact hc8) hE hlen
+    unfold runScriptCmd
+    rw [hk, show scriptDepth = 5 + 1 from rfl, hrun k, hpost.frame.vars]
+    exact clear_of_callerClean kScope vars hclean
+
+/-- `array_join` (handle and separator of the class `ArgOK`): like `map_contains_value` the run
+    clears the prefix of the script command inside its condition (`scope::array_is_empty::`) too -/
+theorem C19_script_array_join_frame (a sep : Str) (rest : List Str) (vars : Vars) (st : ScriptSt)
+    (hclean : ∀ k, underPrefix "scope::array_join".toList k = true → Vars.get vars k = none)
+    (hclean' : ∀ k, underPrefix "scope::array_is_empty".toList k = true → Vars.get vars k = none)
+    (hfree : tget st.coll.tbl (Coll.handleName st.coll.next) = none)
+    (hfree1 : tget st.coll.tbl (Coll.handleName (st.coll.next + 1)) = none)
+    (hne : a ≠ Coll.handleName st.coll.next)
+    (hok : ArgOK a = true) (hsepOK : ArgOK sep = true)
+    (hstale : NoStaleFor "scope::array_join".toList st.forStack)
+    (hc1 : IfCacheOK st.ifMeta "scope::array_join::1".toList 3)
+    (hc5 : IfCacheOK st.ifMeta "scope::array_join::5".toList 16)
+    (hc10 : IfCacheOK st.ifMeta "scope::array_join::10".toList 15)
+    (hc6 : CacheOK st.forMeta "scope::array_join::6".toList 8)
+    (hsize : ∀ l, tget st.coll.tbl a = some (.list l) →
+      (utf8Encode (joinStr sep (l.map Item.render))).length + (utf8Encode sep).length < Calc.two53)
+    (hfuel : 3 * arrLen st.coll.tbl a + 16 ≤ scriptFuel) :
+    (runScriptCmd "array_join".toList (a :: sep :: rest) vars st).2.1 = vars := by
+  obtain ⟨k, hk⟩ : ∃ k, scriptFuel = k + 3 * arrLen st.coll.tbl a + 16 :=
+    ⟨scriptFuel - (3 * arrLen st.coll.tbl a + 16), by omega⟩
+  obtain ⟨r, hrun, hpost⟩ := aj_call 3 a sep rest vars st hfree hfree1 hne hok hsepOK hstale
+    (by rw [aj_keys.1]; exact hc1) (by rw [aj_keys.2.1]; exact hc5) (by rw [aj_keys.2.2.1]; exact hc10)
+    (by rw [aj_keys.2.2.2]; exact hc6) (hclean jString (by decide)) (fun l hl => aj_size sep _ (hsize l hl))
+  unfold runScriptCmd
+  rw [hk, show scriptDepth = 3 + 3 from rfl, hrun k, hpost.frame.vars,
+    clear_of_callerClean aieScope vars hclean', clear_of_callerClean jScope vars hclean]
+  simp
 
 /-- the temporary `::arguments` array is released and nothing else is allocated or released:
     stated with the results in `C12_script_*_correct` (table lookup-equal to the caller's). -/
